@@ -587,6 +587,14 @@ func (g *G) Document(p Profile) *Doc {
 		}
 		pay["advances"] = adv
 	}
+	if p.ManyOddFixed && g.chance(2) {
+		// an advance whose percentage was set (back) to nothing while the amount of an
+		// earlier calculation is still there: the percentage decides
+		adv, _ := pay["advances"].([]any)
+		adv = append(adv, map[string]any{"description": "advance", "percent": g.pick("0%", "0.0%", "0.00%"), "amount": g.amount(maxFor(c, 3000), c, false)})
+		pay["advances"] = adv
+		feats["advance-zero-percent-with-amount"] = true
+	}
 	if g.chance(4) {
 		var dd []any
 		for i := 0; i < 1+g.rng.IntN(2); i++ {
